@@ -58,7 +58,12 @@ def history_st(draw, max_steps=40, max_segments=3, max_n=7, min_workers=1, kills
     reached = 0
     for k in range(nseg):
         ext = W if min_extend is None else min_extend
-        add = draw(st.integers(ext, max(ext, max_steps // nseg)))
+        if k > 0 and W >= 2 and min_extend is None and draw(st.sampled_from([False, False, True])):
+            # a restarted lifetime may be asked for fewer additional steps than there are workers (not the first one:
+            # a fresh run with fewer steps than workers is outside the statement)
+            add = draw(st.integers(1, W - 1))
+        else:
+            add = draw(st.integers(ext, max(ext, max_steps // nseg)))
         target = reached + add
         sched = draw(st.lists(st.integers(0, 5), min_size=0, max_size=add))
         seg = {"steps": target, "schedule": sched, "policy": draw(st.sampled_from(["random", "oldest", "newest", "straggler"])),
